@@ -49,8 +49,9 @@ Z(n) == [j \in 1..n |-> 0]
 SeedRe(sd, n) == IF sd \in {1, 3} THEN V1(n) ELSE V2(n)
 SeedIm(sd, n) == CASE sd = 3 -> V2(n) [] sd = 4 -> V1(n) [] OTHER -> Z(n)
 
-RECURSIVE ISum(_)
-ISum(s) == IF s = <<>> THEN 0 ELSE s[1] + ISum(Tail(s))
+RECURSIVE ISumTo(_, _)
+ISumTo(s, m) == IF m = 0 THEN 0 ELSE s[m] + ISumTo(s, m - 1)
+ISum(s) == ISumTo(s, Len(s))
 RECURSIVE Flatten(_)
 Flatten(ss) == IF ss = <<>> THEN <<>> ELSE ss[1] \o Flatten(Tail(ss))
 
@@ -86,33 +87,40 @@ Slots(L) ==
                                            s |-> s, k |-> k, f |-> FacOf(L, sub)]]])
 SlotVal(t, q) == IF t.s = 0 THEN -1 ELSE t.f * Val(q, t.s, t.k)
 
-\* ---- the operator ------------------------------------------------------------------------------------------------
-Asm(L, q) ==
+\* ---- the geometry of a layout, computed once (TLC does not memoise operators) ---------------------------------------
+\* T: the slots; cscRank / csrRank: slot -> position in the compressed data (rank of its cell among the DISTINCT cells in
+\* column-major / row-major order); cscCell / csrCell: position -> cell
+Compile(L) ==
     LET T == Slots(L)
-        n == N(L)
-    IN [i \in 1..n |-> [j \in 1..n |-> ISum([t \in 1..Len(T) |-> IF T[t].r = i /\ T[t].c = j THEN SlotVal(T[t], q) ELSE 0])]]
+        cells == {<<T[t].r, T[t].c>> : t \in 1..Len(T)}
+        cscR == [p \in cells |-> 1 + Cardinality({x \in cells : x[2] < p[2] \/ (x[2] = p[2] /\ x[1] < p[1])})]
+        csrR == [p \in cells |-> 1 + Cardinality({x \in cells : x[1] < p[1] \/ (x[1] = p[1] /\ x[2] < p[2])})]
+    IN [n |-> N(L), T |-> T, nc |-> Cardinality(cells), rep |-> Cardinality(cells) < Len(T),
+        pos |-> [t \in 1..Len(T) |-> <<T[t].r, T[t].c>>],
+        cscRank |-> [t \in 1..Len(T) |-> cscR[<<T[t].r, T[t].c>>]],
+        csrRank |-> [t \in 1..Len(T) |-> csrR[<<T[t].r, T[t].c>>]],
+        cscCell |-> [m \in 1..Cardinality(cells) |-> CHOOSE p \in cells : cscR[p] = m],
+        csrCell |-> [m \in 1..Cardinality(cells) |-> CHOOSE p \in cells : csrR[p] = m]]
+
+\* ---- the operator ------------------------------------------------------------------------------------------------
+\* sum of values per cell: val[m] is added at cell pos[m], for every m
+RECURSIVE AccCells(_, _, _, _)
+AccCells(A, pos, val, m) == IF m = 0 THEN A ELSE AccCells([A EXCEPT ![pos[m][1]][pos[m][2]] = @ + val[m]], pos, val, m - 1)
+SumCells(pos, n, val) == AccCells([i \in 1..n |-> [j \in 1..n |-> 0]], pos, val, Len(pos))
+Asm(G, q) == SumCells(G.pos, G.n, [t \in 1..Len(G.T) |-> SlotVal(G.T[t], q)])
 
 MatVec(A, v) == [i \in 1..Len(A) |-> ISum([j \in 1..Len(v) |-> A[i][j] * v[j]])]
 MatTVec(A, v) == [j \in 1..Len(v) |-> ISum([i \in 1..Len(A) |-> A[i][j] * v[i]])]
-RefProd(L, q, mode, v) == IF mode = "fwd" THEN MatVec(Asm(L, q), v) ELSE MatTVec(Asm(L, q), v)
+Times(A, mode, v) == IF mode = "fwd" THEN MatVec(A, v) ELSE MatTVec(A, v)
 
 \* ---- the formats -------------------------------------------------------------------------------------------------
-Cells(L) == {<<Slots(L)[t].r, Slots(L)[t].c>> : t \in 1..Len(Slots(L))}
-HasRepeats(L) == Cardinality(Cells(L)) < Len(Slots(L))
-\* rank of a cell in column-major (csc) / row-major (csr) order of the distinct cells
-CscRank(L, r, c) == 1 + Cardinality({p \in Cells(L) : p[2] < c \/ (p[2] = c /\ p[1] < r)})
-CsrRank(L, r, c) == 1 + Cardinality({p \in Cells(L) : p[1] < r \/ (p[1] = r /\ p[2] < c)})
-CscCell(L, m) == CHOOSE p \in Cells(L) : CscRank(L, p[1], p[2]) = m
-CsrCell(L, m) == CHOOSE p \in Cells(L) : CsrRank(L, p[1], p[2]) = m
-
-\* add the slot values one after the other into compressed data (np.add.at / += through the slot->position map)
-Rank(Ly, order, r, c) == IF order = "csc" THEN CscRank(Ly, r, c) ELSE CsrRank(Ly, r, c)
-RECURSIVE AddSlots(_, _, _, _, _, _)
-AddSlots(data, Ly, order, T, t, q) ==
+\* add the slot values one after the other into compressed data through the slot->position map (np.add.at / +=)
+RECURSIVE AddSlots(_, _, _, _, _)
+AddSlots(data, T, rank, t, q) ==
     IF t > Len(T) THEN data
-    ELSE AddSlots([data EXCEPT ![Rank(Ly, order, T[t].r, T[t].c)] = @ + SlotVal(T[t], q)], Ly, order, T, t + 1, q)
+    ELSE AddSlots([data EXCEPT ![rank[t]] = @ + SlotVal(T[t], q)], T, rank, t + 1, q)
 
-RECURSIVE PutSlots(_, _, _, _)       \* overwrite cells of a dense array, slot after slot (last writer wins)
+RECURSIVE PutSlots(_, _, _, _)       \* overwrite cells of a dense array, slot after slot
 PutSlots(A, T, t, q) ==
     IF t > Len(T) THEN A ELSE PutSlots([A EXCEPT ![T[t].r][T[t].c] = SlotVal(T[t], q)], T, t + 1, q)
 
@@ -120,31 +128,24 @@ Zeros(m) == [i \in 1..m |-> 0]
 ZeroMat(n) == [i \in 1..n |-> Zeros(n)]
 
 \* the update rules: old representation -> representation after Linearize(q)
-Update(L, fmt, old, q) ==
-    LET T == Slots(L)
-        nc == Cardinality(Cells(L))
-    IN CASE fmt = "coo" -> [t \in 1..Len(T) |-> SlotVal(T[t], q)]
-         [] fmt = "csc" -> AddSlots(Zeros(nc), L, "csc", T, 1, q)
-         [] fmt = "csr" -> AddSlots(Zeros(nc), L, "csr", T, 1, q)
-         [] fmt = "dense" -> IF HasRepeats(L)
-                             THEN \* coo data, densified: repeated cells are summed
-                                  [i \in 1..N(L) |-> [j \in 1..N(L) |->
-                                      ISum([t \in 1..Len(T) |-> IF T[t].r = i /\ T[t].c = j THEN SlotVal(T[t], q) ELSE 0])]]
-                             ELSE PutSlots(old, T, 1, q)          \* in place; cells outside the pattern are never written
-         [] fmt = "dict" -> q
+Update(G, fmt, old, q) ==
+    CASE fmt = "coo" -> [t \in 1..Len(G.T) |-> SlotVal(G.T[t], q)]                  \* every slot overwritten
+      [] fmt = "csc" -> AddSlots(Zeros(G.nc), G.T, G.cscRank, 1, q)                  \* ZEROED, then accumulated
+      [] fmt = "csr" -> AddSlots(Zeros(G.nc), G.T, G.csrRank, 1, q)
+      [] fmt = "dense" -> IF G.rep
+                          THEN Asm(G, q)                     \* coo data densified: repeated cells are summed
+                          ELSE PutSlots(old, G.T, 1, q)      \* in place; cells outside the pattern are never written
+      [] fmt = "dict" -> q
 
-Initial(L, fmt) == IF fmt = "dense" /\ ~HasRepeats(L) THEN PutSlots(ZeroMat(N(L)), Slots(L), 1, 0)
-                   ELSE Update(L, fmt, <<>>, 0)
+Initial(G, fmt) == Update(G, fmt, ZeroMat(G.n), 0)
 
 \* what a representation denotes, as a dense matrix
-Denotation(L, fmt, rep) ==
-    LET T == Slots(L)
-        n == N(L)
-    IN CASE fmt = "coo" -> [i \in 1..n |-> [j \in 1..n |-> ISum([t \in 1..Len(T) |-> IF T[t].r = i /\ T[t].c = j THEN rep[t] ELSE 0])]]
-         [] fmt = "csc" -> [i \in 1..n |-> [j \in 1..n |-> IF <<i, j>> \in Cells(L) THEN rep[CscRank(L, i, j)] ELSE 0]]
-         [] fmt = "csr" -> [i \in 1..n |-> [j \in 1..n |-> IF <<i, j>> \in Cells(L) THEN rep[CsrRank(L, i, j)] ELSE 0]]
-         [] fmt = "dense" -> rep
-         [] fmt = "dict" -> Asm(L, rep)
+Denotation(G, fmt, rep) ==
+    CASE fmt = "coo" -> SumCells(G.pos, G.n, rep)
+      [] fmt = "csc" -> SumCells(G.cscCell, G.n, rep)
+      [] fmt = "csr" -> SumCells(G.csrCell, G.n, rep)
+      [] fmt = "dense" -> rep
+      [] fmt = "dict" -> Asm(G, rep)
 
 \* products computed the way the format computes them
 \* matrix-free: transfer (gather with factor), then every component applies its own sub-Jacobians and -I
@@ -187,79 +188,85 @@ DictRev(L, q, v) ==
                       ELSE ISum([c \in 1..inp.sz |-> IF SrcPos(L, inp, c - 1) = j THEN inp.fac * Din(ii, c - 1) ELSE 0])])
     IN Flatten([i \in 1..Len(L.outs) |-> [j \in 1..L.outs[i].sz |-> Own(i, j - 1) + Scatter(i, j - 1)]])
 
-Prod(L, fmt, rep, mode, v) ==
-    LET T == Slots(L)
-        n == N(L)
-        nc == Cardinality(Cells(L))
+Prod(L, G, fmt, rep, mode, v) ==
+    LET T == G.T
+        n == G.n
     IN CASE fmt = "coo" ->
               IF mode = "fwd" THEN [i \in 1..n |-> ISum([t \in 1..Len(T) |-> IF T[t].r = i THEN rep[t] * v[T[t].c] ELSE 0])]
               ELSE [j \in 1..n |-> ISum([t \in 1..Len(T) |-> IF T[t].c = j THEN rep[t] * v[T[t].r] ELSE 0])]
          [] fmt = "csc" ->
-              IF mode = "fwd" THEN [i \in 1..n |-> ISum([m \in 1..nc |-> IF CscCell(L, m)[1] = i THEN rep[m] * v[CscCell(L, m)[2]] ELSE 0])]
-              ELSE [j \in 1..n |-> ISum([m \in 1..nc |-> IF CscCell(L, m)[2] = j THEN rep[m] * v[CscCell(L, m)[1]] ELSE 0])]
+              IF mode = "fwd" THEN [i \in 1..n |-> ISum([m \in 1..G.nc |-> IF G.cscCell[m][1] = i THEN rep[m] * v[G.cscCell[m][2]] ELSE 0])]
+              ELSE [j \in 1..n |-> ISum([m \in 1..G.nc |-> IF G.cscCell[m][2] = j THEN rep[m] * v[G.cscCell[m][1]] ELSE 0])]
          [] fmt = "csr" ->
-              IF mode = "fwd" THEN [i \in 1..n |-> ISum([m \in 1..nc |-> IF CsrCell(L, m)[1] = i THEN rep[m] * v[CsrCell(L, m)[2]] ELSE 0])]
-              ELSE [j \in 1..n |-> ISum([m \in 1..nc |-> IF CsrCell(L, m)[2] = j THEN rep[m] * v[CsrCell(L, m)[1]] ELSE 0])]
-         [] fmt = "dense" -> IF mode = "fwd" THEN MatVec(rep, v) ELSE MatTVec(rep, v)
+              IF mode = "fwd" THEN [i \in 1..n |-> ISum([m \in 1..G.nc |-> IF G.csrCell[m][1] = i THEN rep[m] * v[G.csrCell[m][2]] ELSE 0])]
+              ELSE [j \in 1..n |-> ISum([m \in 1..G.nc |-> IF G.csrCell[m][2] = j THEN rep[m] * v[G.csrCell[m][1]] ELSE 0])]
+         [] fmt = "dense" -> Times(rep, mode, v)
          [] fmt = "dict" -> IF mode = "fwd" THEN DictFwd(L, rep, v) ELSE DictRev(L, rep, v)
 
 \* ---- the state machine -------------------------------------------------------------------------------------------
 VARIABLES ly,       \* index of the layout
+          geo,      \* its compiled geometry (constant along a behaviour)
           inst,     \* value set the components return / that the last Linearize installed (0 = declared values)
           cplx,     \* TRUE while the vectors (and therefore the matrices after the next Linearize) are complex
           lin,      \* a Linearize has happened
           fresh,    \* a Linearize has happened since the last dtype switch (products are only taken then)
           mats,     \* format -> representation
           hist      \* the history, with the exact expectation after every action
-vars == <<ly, inst, cplx, lin, fresh, mats, hist>>
+vars == <<ly, geo, inst, cplx, lin, fresh, mats, hist>>
 
 L == Layouts[ly]
 
 Init == /\ ly \in 1..Len(Layouts)
+        /\ geo = Compile(Layouts[ly])
         /\ inst = 0 /\ cplx = FALSE /\ lin = FALSE /\ fresh = FALSE
-        /\ mats = [f \in Formats |-> Initial(Layouts[ly], f)]
+        /\ mats = [f \in Formats |-> Initial(geo, f)]
         /\ hist = <<>>
 
+Bound == Len(hist) < Depth
+
 Linearize(q) ==
+    /\ Bound
     /\ inst' = q /\ lin' = TRUE /\ fresh' = TRUE
-    /\ mats' = [f \in Formats |-> Update(L, f, mats[f], q)]          \* the dtype of the data follows cplx; values are real
-    /\ hist' = Append(hist, [a |-> "Linearize", q |-> q, asm |-> Asm(L, q)])
-    /\ UNCHANGED <<ly, cplx>>
+    /\ mats' = [f \in Formats |-> Update(geo, f, mats[f], q)]          \* the dtype of the data follows cplx; values are real
+    /\ hist' = Append(hist, [a |-> "Linearize", q |-> q, asm |-> Asm(geo, q)])
+    /\ UNCHANGED <<ly, geo, cplx>>
 
 SetComplex(b) ==
+    /\ Bound
     /\ b # cplx
     /\ cplx' = b /\ fresh' = FALSE
     /\ hist' = Append(hist, [a |-> "SetComplex", b |-> b])
-    /\ UNCHANGED <<ly, inst, lin, mats>>
+    /\ UNCHANGED <<ly, geo, inst, lin, mats>>
 
 \* the product of a complex vector is the complex-linear extension: real and imaginary parts separately
 Apply(mode, sd) ==
+    /\ Bound
     /\ lin /\ fresh
     /\ sd \in {3, 4} => cplx
-    /\ hist' = Append(hist, [a |-> "Apply", mode |-> mode, sd |-> sd,
-                             re |-> RefProd(L, inst, mode, SeedRe(sd, N(L))),
-                             im |-> RefProd(L, inst, mode, SeedIm(sd, N(L)))])
-    /\ UNCHANGED <<ly, inst, cplx, lin, fresh, mats>>
+    /\ LET A == Asm(geo, inst)
+       IN hist' = Append(hist, [a |-> "Apply", mode |-> mode, sd |-> sd,
+                                re |-> Times(A, mode, SeedRe(sd, geo.n)), im |-> Times(A, mode, SeedIm(sd, geo.n))])
+    /\ UNCHANGED <<ly, geo, inst, cplx, lin, fresh, mats>>
 
-Next == /\ Len(hist) < Depth
-        /\ \/ \E q \in 1..NQ : Linearize(q)
-           \/ \E b \in BOOLEAN : SetComplex(b)
-           \/ \E mode \in Modes, sd \in Seeds : Apply(mode, sd)
+Next == \/ \E q \in 1..NQ : Linearize(q)
+        \/ \E b \in BOOLEAN : SetComplex(b)
+        \/ \E mode \in Modes, sd \in Seeds : Apply(mode, sd)
 
 Spec == Init /\ [][Next]_vars
 
 \* ---- properties ----------------------------------------------------------------------------------------------------
 \* every format denotes the operator assembled from the LATEST values (nothing of an earlier linearisation is left)
-Denotes == \A f \in Formats : Denotation(L, f, mats[f]) = Asm(L, inst)
-\* every format computes the same products, forward and transposed, on every seed (real and imaginary parts)
+Denotes == LET A == Asm(geo, inst) IN \A f \in Formats : Denotation(geo, f, mats[f]) = A
+\* every format computes the same products, forward and transposed, on both seed vectors (the real and imaginary
+\* parts of every seed are one of them or zero)
 FormatsAgree ==
-    \A f \in Formats, mode \in Modes, sd \in Seeds :
-        /\ Prod(L, f, mats[f], mode, SeedRe(sd, N(L))) = RefProd(L, inst, mode, SeedRe(sd, N(L)))
-        /\ Prod(L, f, mats[f], mode, SeedIm(sd, N(L))) = RefProd(L, inst, mode, SeedIm(sd, N(L)))
+    LET A == Asm(geo, inst)
+    IN \A f \in Formats, mode \in Modes, v \in {V1(geo.n), V2(geo.n)} : Prod(L, geo, f, mats[f], mode, v) = Times(A, mode, v)
 \* forward and reverse are adjoint:  u . (A v) = (A^T u) . v
 Dot(u, v) == ISum([i \in 1..Len(u) |-> u[i] * v[i]])
-Adjoint == LET n == N(L) IN Dot(V1(n), RefProd(L, inst, "fwd", V2(n))) = Dot(RefProd(L, inst, "rev", V1(n)), V2(n))
-\* duplicates and repeated source positions are really present in the layouts that claim them
+Adjoint == LET n == geo.n
+               A == Asm(geo, inst)
+           IN Dot(V1(n), Times(A, "fwd", V2(n))) = Dot(Times(A, "rev", V1(n)), V2(n))
 TypeOK == /\ inst \in 0..NQ /\ cplx \in BOOLEAN
           /\ \A s \in 1..Len(L.subs) : \A k \in 1..Len(Pat(L, L.subs[s])) :
                 LET e == Pat(L, L.subs[s])[k] IN e[1] \in 0..(L.outs[L.subs[s].of].sz - 1) /\ e[2] \in 0..(WrtSize(L, L.subs[s]) - 1)
